@@ -161,6 +161,29 @@ func TestC20(t *testing.T) {
 	defer rec.Finish()
 	w := newWorld(t, env, rec, false)
 	r := env.Rand("c20")
+	// odd batches: a small worker pool that the harness saturates around realloc / set-node operations, so that the
+	// non-blocking pool REFUSES the asynchronous follow-up tasks (the remap) of the operation: whatever the operation
+	// does instead must still respect the lock order
+	smallPool := env.NBatch > 1 && env.Batch%2 == 1
+	if smallPool {
+		b := sim.NewBoundary()
+		cl := sim.Boot(t, b, sim.BootOpts{MaxConcurrency: 48}, nil)
+		w = &world{t: t, env: env, rec: rec, b: b, cl: cl, model: sim.NewModel()}
+	}
+	// saturate fills the pool with blocked tasks until it refuses; it returns the release function
+	saturate := func() func() {
+		release := make(chan struct{})
+		n := 0
+		for i := 0; i < 1000; i++ {
+			if err := w.cl.C.VerifPoolInvoke(func() { <-release }); err != nil {
+				break
+			}
+			n++
+		}
+		rec.Count("pool_saturations", 1)
+		rec.Max("max:pool_workers_occupied", n)
+		return func() { close(release) }
+	}
 
 	run := func(hc *histCase) {
 		if err := w.rebuild(hc.Topology, hc.Setup); err != nil {
@@ -170,7 +193,17 @@ func TestC20(t *testing.T) {
 		rec.Eval()
 		w.cl.Locks.Reset()
 		for i, op := range hc.Ops {
+			var release func()
+			if smallPool && (op.Kind == "realloc" || op.Kind == "set-node") && hc.Saturate[i%len(hc.Saturate)] {
+				w.cl.WaitQuiet(quietPatience)
+				release = saturate()
+				rec.Count("ops_under_saturated_pool/"+op.Kind, 1)
+			}
 			res := w.exec(op, nil)
+			if release != nil {
+				release()
+				w.cl.WaitQuiet(quietPatience)
+			}
 			rec.Count("ops/"+op.Kind, 1)
 			if res.TimedOut {
 				rec.Skip("operation stream did not close (reported under C12/C29)")
@@ -235,7 +268,7 @@ func TestC20(t *testing.T) {
 			topo.Nodes[j].Pod = topo.Pods[j%2]
 		}
 		topo.Pods = append(topo.Pods, "pempty")
-		hc := &histCase{Topology: topo, Mode: "lock-order"}
+		hc := &histCase{Topology: topo, Mode: "lock-order", Saturate: []bool{r.Intn(2) == 0, r.Intn(2) == 0, true}}
 		for j := 0; j < 2+r.Intn(3); j++ {
 			c := sim.GenCreate(r, topo)
 			c.Strategy, c.Limit, c.Labels, c.Excludes = "AUTO", 0, nil, nil
